@@ -61,7 +61,13 @@ def pollObs (outs : List Out) : Option Out :=
 def stepSet (states : List H) (sid : Nat) (o : Obs) : List H × Nat :=
   match o with
   | .ignore => (states, sid)
-  | .sendWantlist w => (dedup (states.map fun h => (step h (.sendWantlist w)).1), sid)
+  | .sendWantlist w =>
+    -- `SendingState::RequestReceived` carries an `Instant`: a wantlist handed over while the previous one
+    -- is still outstanding (outside the environment's obligations: known finding F14) is reported
+    -- again if the clock has moved; the automaton's state has no time, so both are accepted here
+    (dedup (states.flatMap fun h =>
+      let h' := (step h (.sendWantlist w)).1
+      if h.ss == .requestReceived && !h.halted then [h', { h' with queue := h'.queue ++ [.state .requestReceived] }] else [h']), sid)
   | .setStream => (dedup (states.map fun h => (step h (.setStream sid)).1), sid + 1)
   | .allocFailed => (dedup (states.map fun h => (step h .allocFailed).1), sid)
   | .outReport r =>
